@@ -649,7 +649,7 @@ static size_t copy_chars (UCHAR* from, UCHAR* to, size_t count, interactive_t* i
         case TS_SB_IAC:
           if (from[i] == IAC)
             {
-              if (ip->sb_pos >= SB_SIZE)
+              if (ip->sb_pos >= SB_SIZE - 1)	/* keep room for the terminator */
                 break;
               /* IAC IAC is a quoted IAC char */
               ip->sb_buf[ip->sb_pos++] = INT_CHAR(IAC);
@@ -667,7 +667,9 @@ static size_t copy_chars (UCHAR* from, UCHAR* to, size_t count, interactive_t* i
                * come back here (all later input would be discarded as
                * "inside IAC SB").
                */
-              ip->sb_buf[ip->sb_pos] = 0;	/* may need setup as a buffer */
+              /* terminate, and clear what this sub-negotiation did not send: the
+               * handlers below read fixed positions (NAWS: 1..4, TTYPE: 2..) */
+              memset (ip->sb_buf + ip->sb_pos, 0, SB_SIZE - ip->sb_pos);
               ip->state = TS_DATA;
               switch (ip->sb_buf[0])
                 {
@@ -938,7 +940,7 @@ static size_t copy_chars (UCHAR* from, UCHAR* to, size_t count, interactive_t* i
               ip->state = TS_SB_IAC;
               break;
             }
-          if (ip->sb_pos < SB_SIZE)
+          if (ip->sb_pos < SB_SIZE - 1)	/* keep room for the terminator */
             ip->sb_buf[ip->sb_pos++] = from[i];
           break;
         }
